@@ -291,7 +291,7 @@ def fam_ra_roundtrip(ctx):
     A = ra.RaggedArray(np.concatenate(rows), lengths=lens)
     if t.flag(1, 5):
         # the path already holds another array (more rows, other row-name width): saving replaces the file's content
-        other = [np.arange(3, dtype=dt) + k_ for k_ in range(n_rows + t.choice((1, 2, 9, 95)))]
+        other = [((np.arange(3) + k_) % 120).astype(dt) for k_ in range(n_rows + t.choice((1, 2, 9, 95)))]
         ctx.sut(ra.save, fn, ra.RaggedArray(other), compression_level=comp, tag=tag)
         ctx.hit('save_over_existing_file')
     ctx.sut(ra.save, fn, A, compression_level=comp, tag=tag)
